@@ -122,6 +122,10 @@ func scramble(v reflect.Value, seen map[uintptr]bool) {
 			scramble(v.MapIndex(k), seen)
 			v.SetMapIndex(k, reflect.Value{})
 		}
+		// and an insertion: visible in any other tree that shares this map
+		if et := v.Type().Elem(); et.Kind() == reflect.Ptr && et.Elem().Kind() == reflect.Struct {
+			v.SetMapIndex(reflect.Zero(v.Type().Key()), reflect.New(et.Elem()))
+		}
 	case reflect.Slice:
 		for i := 0; i < v.Len(); i++ {
 			e := v.Index(i)
@@ -155,4 +159,37 @@ func bump(v reflect.Value) {
 	case reflect.Float64:
 		v.SetFloat(v.Float() + 1234.5)
 	}
+}
+
+// AllocEmptyMaps sets every nil keyed-list (map) field reachable from s to an empty, non-nil
+// map and returns how many it set.
+func AllocEmptyMaps(s interface{}) int { return allocMaps(reflect.ValueOf(s)) }
+
+func allocMaps(v reflect.Value) int {
+	n := 0
+	switch v.Kind() {
+	case reflect.Ptr:
+		if !v.IsNil() && v.Elem().Kind() == reflect.Struct {
+			n += allocMaps(v.Elem())
+		}
+	case reflect.Struct:
+		for i := 0; i < v.NumField(); i++ {
+			f := v.Field(i)
+			if !f.CanSet() {
+				continue
+			}
+			switch {
+			case f.Kind() == reflect.Map && f.IsNil():
+				f.Set(reflect.MakeMap(f.Type()))
+				n++
+			case f.Kind() == reflect.Map:
+				for _, k := range f.MapKeys() {
+					n += allocMaps(f.MapIndex(k))
+				}
+			case f.Kind() == reflect.Ptr:
+				n += allocMaps(f)
+			}
+		}
+	}
+	return n
 }
